@@ -1,16 +1,17 @@
 #!/bin/sh
+REPO=${STEEL_REPO:-/repo}; export STEEL_REPO=$REPO
 # Re-run every seeded change against the current checks: each must make the listed property's check exit 1, and the clean
 # tree must be silent. Not part of quick/thorough. Usage: tools/selftest.sh [id ...]
 cd "$(dirname "$0")/.." || exit 2
-if [ -n "$(git -C /repo status --porcelain --untracked-files=no)" ]; then echo "/repo not clean"; exit 2; fi
+if [ -n "$(git -C $REPO status --porcelain --untracked-files=no)" ]; then echo "$REPO not clean"; exit 2; fi
 ids="$*"; [ -z "$ids" ] && ids=$(ls seeded)
 fail=0
 for id in $ids; do
   prop=$(python3 -c "import json;print(json.load(open('seeded/$id/meta.json'))['property'])")
   if python3 -c "import json,sys;sys.exit(0 if 'superseded' in json.load(open('seeded/$id/meta.json')) else 1)"; then echo "$id: skipped (superseded by a fix, see meta.json)"; continue; fi
-  git -C /repo apply "$PWD/seeded/$id/patch.diff" || { echo "$id: patch does not apply"; fail=1; continue; }
-  ./check "$prop" > /tmp/selftest_$id.out 2>&1; rc=$?
-  git -C /repo checkout -- .
-  if [ $rc -eq 1 ]; then echo "$id: reported by $prop ($(grep -c '^VIOLATION' /tmp/selftest_$id.out) violations): $(grep -m1 '^  rule' /tmp/selftest_$id.out)"; else echo "$id: NOT reported (exit $rc)"; fail=1; fi
+  git -C $REPO apply "$PWD/seeded/$id/patch.diff" || { echo "$id: patch does not apply"; fail=1; continue; }
+  ./check "$prop" > ${TMPDIR:-/tmp}/selftest_$id.out 2>&1; rc=$?
+  git -C $REPO checkout -- .
+  if [ $rc -eq 1 ]; then echo "$id: reported by $prop ($(grep -c '^VIOLATION' ${TMPDIR:-/tmp}/selftest_$id.out) violations): $(grep -m1 '^  rule' ${TMPDIR:-/tmp}/selftest_$id.out)"; else echo "$id: NOT reported (exit $rc)"; fail=1; fi
 done
 exit $fail
